@@ -32,7 +32,7 @@ OUTSIDE = ["more than 3 operands (4 in thorough, restricted)", "named rank above
 
 
 def bounds(tier):
-    return dict(operands="1..3" if tier == "quick" else "1..3 (+ restricted 4)", named_rank_per_operand="<=2", labels="<=3", ellipsis_rank="0..2 per operand, differing ranks right-aligned",
+    return dict(operands="1..3 (3 operands: <=3 named positions in total)", named_rank_per_operand="<=2", labels="<=3", ellipsis_rank="0..2 per operand, differing ranks right-aligned",
                 output="implicit, or every ordered subset (<=2) of labels with '...' left/right/absent", sizes="named 2/3 alternating; ellipsis dims (2,3); broadcast variants with one dimension set to 1",
                 interleaved="every string-form case is also issued in interleaved form (int labels, Ellipsis object)" if tier != "quick" else "a rotating third of the cases is also issued in interleaved form")
 
@@ -58,7 +58,7 @@ def gen_cases(tier):
     for nops in range(1, max_ops + 1):
         for fs in itertools.product(forms, repeat=nops):
             named_pos = sum(f[0] + f[2] for f in fs)
-            if nops == 3 and named_pos > (3 if tier == "quick" else 4):
+            if nops == 3 and named_pos > 3:
                 continue
             if nops == 3 and tier == "quick" and sum(f[1] for f in fs) == 3 and named_pos > 2:
                 continue
@@ -71,7 +71,7 @@ def gen_cases(tier):
                 elif nops == 2:
                     ell_opts = [e for e in itertools.product((0, 1, 2), repeat=len(idx)) if max(e) >= 1]
                 else:
-                    ell_opts = [e for e in itertools.product((0, 1, 2), repeat=len(idx)) if max(e) >= 1 and (tier != "quick" or sum(e) <= 2)]
+                    ell_opts = [e for e in itertools.product((0, 1, 2), repeat=len(idx)) if max(e) >= 1 and sum(e) <= (2 if tier == "quick" else 3)]
             for g in skel.rgs(named_pos, kmax=3):
                 labs = [skel.LETTERS[x] for x in g]
                 terms = []
